@@ -32,6 +32,8 @@ def tolmag(ti, te):
 def loop_signature(atts, ti, te, dyn, minTs):
     """which known weakness of the time loop the attempts of the implementation exhibit (None: neither)"""
     tol = tolmag(ti, te)
+    if te == ti:
+        return SITE_TEPS          # the unfixed tolerance (te - ti) * 100 * eps is zero: the loop cannot end
     for k, (t, dt) in enumerate(atts):
         if dyn and minTs < 0 and t + dt > te + 2 * tol:
             return SITE_CLAMP
